@@ -516,4 +516,186 @@ theorem handler_panic_needs_defer (ch : Chain) (pre post : List Stmt) (eb tr : B
     unfold conformsTrace
     simp
 
+
+/-! ## Exactness: the recorded findings are precisely the non-conforming pairs of the current table -/
+
+/-- (entry point, scenario) fails `conforms` **iff** a recorded copy with that key fails that scenario; and every
+recorded copy is still in the table verbatim.  Re-decided by the kernel against the regenerated table on every run:
+a new defect (a failing pair that is not recorded), a repaired adapter (a recorded failing pair that now conforms) and a
+recorded entry point that changed or vanished all break it. -/
+def exactTable : Bool :=
+  (Sentinel.Gen.adapters.all fun p => scenarios.all fun s =>
+      (!conforms p s) == knownProgs.any fun k => k.key == p.key && !conforms k s) &&
+  (knownProgs.all fun k => Sentinel.Gen.adapters.any fun p =>
+      k.key == p.key && k.fw == p.fw && k.nextVia == p.nextVia && beqList k.body p.body)
+
+theorem recorded_findings_exact : exactTable = true := by decide
+
+/-- the readable form of the first half -/
+theorem nonconforming_iff_recorded (p : Prog) (hp : p ∈ Sentinel.Gen.adapters) (s : Scenario) :
+    conforms p s = false ↔ ∃ k ∈ knownProgs, k.key = p.key ∧ conforms k s = false := by
+  have h := recorded_findings_exact
+  unfold exactTable at h
+  have h1 := (Bool.and_eq_true _ _).mp h |>.1
+  have h2 := (List.all_eq_true.mp ((List.all_eq_true.mp h1) p hp)) s (scenarios_complete s)
+  have h3 : (!conforms p s) = knownProgs.any fun k => k.key == p.key && !conforms k s := by simpa using h2
+  constructor
+  · intro hc
+    rw [hc] at h3
+    obtain ⟨k, hk, hb⟩ := List.any_eq_true.mp h3.symm
+    simp only [Bool.and_eq_true, beq_iff_eq, Bool.not_eq_true'] at hb
+    exact ⟨k, hk, hb.1, hb.2⟩
+  · rintro ⟨k, hk, hkey, hf⟩
+    have : (knownProgs.any fun k => k.key == p.key && !conforms k s) = true :=
+      List.any_eq_true.mpr ⟨k, hk, by simp [hkey, hf]⟩
+    rw [this] at h3
+    simpa using h3
+
+/-- every recorded finding is still present, verbatim, in the current table (a finding that stops reproducing is visible) -/
+theorem recorded_still_present : ∀ k ∈ knownProgs, ∃ p ∈ Sentinel.Gen.adapters, isKnown p = true ∧ p.key = k.key := by
+  decide
+
+/-! ## Semantic lemmas about `defer` and `exit`, for every body, chain and handler -/
+
+mutual
+theorem exec_admitted_inv (ch : Chain) (sc : Scenario) (hb : sc.blocked = false) :
+    ∀ (x : Stmt) (s : St), s.entryNil = false → (exec ch sc s x).entryNil = false ∧ s.deferred ≤ (exec ch sc s x).deferred
+  | .entry, s, _ => by simp [exec, hb]
+  | .ifBlocked th, s, h => by simp [exec, hb, h]
+  | .reject alts, s, h => by simp [exec, h]
+  | .ret, s, h => by simp [exec, h]
+  | .deferExit, s, h => by simp [exec, h]
+  | .exitNow, s, h => by simp [exec, h]
+  | .useEntry, s, h => by simp [exec, h]
+  | .callNext eb tr, s, h => by
+      simp only [exec]
+      split
+      · simp [h]
+      · split
+        · split <;> simp [h]
+        · simp [h]
+      · simp [h]
+  | .unknown, s, h => by simp [exec, h]
+  | .badGuard, s, h => by simp [exec, h]
+theorem execList_admitted_inv (ch : Chain) (sc : Scenario) (hb : sc.blocked = false) :
+    ∀ (l : List Stmt) (s : St), s.entryNil = false →
+      (execList ch sc s l).entryNil = false ∧ s.deferred ≤ (execList ch sc s l).deferred
+  | [], s, h => by simp [execList, h]
+  | x :: r, s, h => by
+      simp only [execList]
+      split
+      · simp [h]
+      · have h1 := exec_admitted_inv ch sc hb x s h
+        have h2 := execList_admitted_inv ch sc hb r (exec ch sc s x) h1.1
+        exact ⟨h2.1, Nat.le_trans h1.2 h2.2⟩
+end
+
+/-- statements that cannot end an admitted activation (no `return`, no handler call that may panic) -/
+def cannotStop : Stmt → Bool
+  | .ret => false
+  | .callNext _ _ => false
+  | _ => true
+
+theorem exec_admitted_cannotStop (ch : Chain) (sc : Scenario) (hb : sc.blocked = false) (x : Stmt)
+    (hx : cannotStop x = true) (s : St) (hn : s.entryNil = false) (hs : s.stopped = false) :
+    (exec ch sc s x).stopped = false ∧ (exec ch sc s x).entryNil = false := by
+  cases x with
+  | ret => simp [cannotStop] at hx
+  | callNext eb tr => simp [cannotStop] at hx
+  | ifBlocked th => simp [exec, hb, hn, hs]
+  | _ => simp [exec, hn, hs, hb]
+
+theorem execList_admitted_cannotStop (ch : Chain) (sc : Scenario) (hb : sc.blocked = false) :
+    ∀ (pre : List Stmt), (∀ x ∈ pre, cannotStop x = true) → ∀ s : St, s.entryNil = false → s.stopped = false →
+      (execList ch sc s pre).stopped = false ∧ (execList ch sc s pre).entryNil = false
+  | [], _, s, hn, hs => by simp [execList, hn, hs]
+  | x :: r, h, s, hn, hs => by
+      simp only [execList, hs]
+      have h1 := exec_admitted_cannotStop ch sc hb x (h x (by simp)) s hn hs
+      exact execList_admitted_cannotStop ch sc hb r (fun y hy => h y (by simp [hy])) _ h1.2 h1.1
+
+theorem unwind_exit_mem : ∀ (n : Nat) (tr : List Ev), Ev.exit ∈ unwind false (n + 1) tr
+  | 0, tr => by simp [unwind]
+  | n + 1, tr => by
+      have := unwind_exit_mem n (tr ++ [Ev.exit])
+      simpa [unwind] using this
+
+/-- **`defer e.Exit()` placed before anything that can return or panic guarantees the exit on every admitted path**:
+whatever follows the `defer` (handler ok / error / panic, early returns, unknown constructs …), in every framework -/
+theorem defer_before_stop_guarantees_exit (ch : Chain) (hd : Handler) (pre rest : List Stmt)
+    (hpre : ∀ x ∈ pre, cannotStop x = true) :
+    Ev.exit ∈ runProg ch ⟨false, hd⟩ (pre ++ .deferExit :: rest) := by
+  have h1 := execList_admitted_cannotStop ch ⟨false, hd⟩ rfl pre hpre {} rfl rfl
+  unfold runProg
+  rw [execList_append]
+  generalize execList ch ⟨false, hd⟩ {} pre = s1 at h1
+  have hstep : execList ch ⟨false, hd⟩ s1 (.deferExit :: rest) =
+      execList ch ⟨false, hd⟩ { s1 with deferred := s1.deferred + 1 } rest := by
+    simp [execList, h1.1, exec]
+  rw [hstep]
+  have inv := execList_admitted_inv ch ⟨false, hd⟩ rfl rest { s1 with deferred := s1.deferred + 1 } h1.2
+  generalize execList ch ⟨false, hd⟩ { s1 with deferred := s1.deferred + 1 } rest = s2 at inv
+  have hpos : s2.deferred ≠ 0 := by have := inv.2; simp at this; omega
+  obtain ⟨n, hn⟩ := Nat.exists_eq_succ_of_ne_zero hpos
+  have hm := unwind_exit_mem n s2.trace
+  dsimp only
+  rw [inv.1, hn]
+  split
+  · exact List.mem_append_left _ hm
+  · exact hm
+
+/-- statements that never exit the entry -/
+def neverExits : Stmt → Bool
+  | .deferExit => false
+  | .exitNow => false
+  | _ => true
+
+theorem exec_admitted_neverExits (ch : Chain) (sc : Scenario) (hb : sc.blocked = false) (x : Stmt)
+    (hx : neverExits x = true) (s : St) (he : Ev.exit ∉ s.trace) :
+    (exec ch sc s x).deferred = s.deferred ∧ Ev.exit ∉ (exec ch sc s x).trace := by
+  cases x with
+  | deferExit => simp [neverExits] at hx
+  | exitNow => simp [neverExits] at hx
+  | ifBlocked th => simp [exec, hb, he]
+  | reject alts => simp only [exec]; split <;> simp [he]
+  | useEntry => simp only [exec]; split <;> simp [he]
+  | callNext eb tr =>
+      simp only [exec]
+      split
+      · simp [he]
+      · split
+        · split <;> simp [he]
+        · simp [he]
+      · simp [he]
+  | _ => simp [exec, he]
+
+theorem execList_admitted_neverExits (ch : Chain) (sc : Scenario) (hb : sc.blocked = false) :
+    ∀ (body : List Stmt), (∀ x ∈ body, neverExits x = true) → ∀ s : St, Ev.exit ∉ s.trace →
+      (execList ch sc s body).deferred = s.deferred ∧ Ev.exit ∉ (execList ch sc s body).trace
+  | [], _, s, he => by simp [execList, he]
+  | x :: r, h, s, he => by
+      simp only [execList]
+      split
+      · exact ⟨rfl, he⟩
+      · have h1 := exec_admitted_neverExits ch sc hb x (h x (by simp)) s he
+        have h2 := execList_admitted_neverExits ch sc hb r (fun y hy => h y (by simp [hy])) _ h1.2
+        exact ⟨h2.1.trans h1.1, h2.2⟩
+
+/-- **no reachable `Exit`, no conformance**: a body whose top-level statements (the ones an admitted request can reach:
+the block branch is skipped) contain neither `defer e.Exit()` nor `e.Exit()` fails every admitted scenario, in every framework -/
+theorem no_exit_never_conforms_admitted (ch : Chain) (hd : Handler) (body : List Stmt)
+    (hb : ∀ x ∈ body, neverExits x = true) :
+    conformsTrace ⟨false, hd⟩ (runProg ch ⟨false, hd⟩ body) = false := by
+  apply admitted_needs_exit
+  have h := execList_admitted_neverExits ch ⟨false, hd⟩ rfl body hb {} (by simp)
+  unfold runProg
+  generalize execList ch ⟨false, hd⟩ {} body = s at h
+  have hd0 : s.deferred = 0 := h.1
+  dsimp only
+  rw [hd0]
+  simp only [unwind]
+  split
+  · simp [h.2]
+  · exact h.2
+
 end Sentinel.C19
